@@ -17,6 +17,7 @@ HARN = os.path.join(ROOT, "harness")
 WORK = os.path.join(ROOT, "work")
 DRIVER = os.path.join(LEAN, ".lake", "build", "bin", "driver")
 HX = os.path.join(HARN, "target", "release", "hx")
+HX_PLAIN = os.path.join(HARN, "target", "plain", "hx")
 REPO = "/repo"
 ALLOWED_AXIOMS = {"propext", "Classical.choice", "Quot.sound"}
 FORBIDDEN = re.compile(r"\bsorry\b|\badmit\b|^\s*axiom\s|native_decide|bv_decide|implemented_by|\bunsafe\s|maxHeartbeats\s+0")
@@ -153,6 +154,14 @@ def build_harness():
         shutil.copy(os.path.join(REPO, "Cargo.lock"), lock)
     rc, out, secs = sh(["cargo", "build", "--release", "--offline"], cwd=HARN, timeout=3600)
     errs = [l for l in out.split("\n") if l.startswith("error")]
+    if rc == 0:
+        # the second build (no debug assertions, no overflow checks): used to check that the library answers alike however it
+        # is compiled; a failure to build it is reported like one of the first
+        rc2, out2, secs2 = sh(["cargo", "build", "--profile", "plain", "--offline"], cwd=HARN, timeout=3600)
+        if rc2 != 0:
+            rc, out = rc2, out2
+            errs = [l for l in out.split("\n") if l.startswith("error")]
+        secs += secs2
     return {"ok": rc == 0, "log": "\n".join(errs[:20]) + "\n" + out[-3000:] if rc != 0 else "", "secs": round(secs, 1)}
 
 
@@ -191,7 +200,7 @@ def _count_lines(path):
 IDLE_LIMIT = 90
 
 
-def run_impl(cases, out, idle_limit=None):
+def run_impl(cases, out, idle_limit=None, hx=None):
     """Supervised execution of `hx run`: an abort (stack overflow, allocation failure) or a hang is attributed to the
     exact line; the worker is restarted after it. Returns list of (line_index, 'abort'|'hang')."""
     if idle_limit is None:
@@ -202,7 +211,7 @@ def run_impl(cases, out, idle_limit=None):
     start = 0
     incidents = []
     while True:
-        p = subprocess.Popen([HX, "run", cases, out, str(start)], env=ENV, stdout=subprocess.DEVNULL, stderr=subprocess.PIPE)
+        p = subprocess.Popen([hx or HX, "run", cases, out, str(start)], env=ENV, stdout=subprocess.DEVNULL, stderr=subprocess.PIPE)
         last_size, last_change = -1, time.time()
         kind = None
         while True:
@@ -302,7 +311,7 @@ def split_cases(cases_path, n, wd):
     return chunks, lines, len(pre)
 
 
-def run_pair(cases_path, wd, nproc=1, model_input=None):
+def run_pair(cases_path, wd, nproc=1, model_input=None, both_builds=False):
     """returns (lines, impl_answers, model_answers, incidents); answers aligned with lines.
     model_input(line, impl_answer) -> line for the model: used where the model *replays what was observed* (client
     trace conformance) instead of predicting it from the input alone."""
@@ -315,6 +324,9 @@ def run_pair(cases_path, wd, nproc=1, model_input=None):
         p, s, e = ch
         io, mo = p + ".impl", p + ".model"
         inc = run_impl(p, io)
+        if both_builds and os.path.exists(HX_PLAIN):
+            # the same cases on the build without debug assertions and overflow checks: the answers must be the same
+            run_impl(p, p + ".plain", hx=HX_PLAIN)
         if model_input is None:
             run_model(p, mo)
         else:
@@ -354,7 +366,19 @@ def run_pair(cases_path, wd, nproc=1, model_input=None):
                     model[k] = b[k] if k < len(b) else "missing"
             for (li, kind) in inc:
                 incidents.append(((li if single else li - npre + s), kind))
+            if both_builds and os.path.exists(p + ".plain"):
+                with open(p + ".plain") as f:
+                    c = f.read().split("\n")
+                for k in range(n):
+                    x = a[off + k] if off + k < len(a) else "missing"
+                    y = c[off + k] if off + k < len(c) else "missing"
+                    if x != y:
+                        PLAIN_DIFFS.append((base + k, x, y))
     return lines, impl, model, incidents
+
+
+# (line index, answer of the checked build, answer of the plain build) where the two builds of the harness disagree
+PLAIN_DIFFS = []
 
 
 def split_model(ans):
